@@ -126,9 +126,19 @@ func (d *diff) defaultChanged(from, to *schema.Column) bool {
 	if d1 == d2 {
 		return false
 	}
+	// TRUE and FALSE are keywords (case-insensitive) in SQLite. The HCL
+	// representation of an inspected "DEFAULT TRUE" is the boolean true.
+	if isKeywordBool(d1) && isKeywordBool(d2) && strings.EqualFold(d1, d2) {
+		return false
+	}
 	x1, err1 := sqlx.Unquote(d1)
 	x2, err2 := sqlx.Unquote(d2)
 	return err1 != nil || err2 != nil || x1 != x2
+}
+
+// isKeywordBool reports if the given default value is the TRUE or FALSE keyword.
+func isKeywordBool(s string) bool {
+	return strings.EqualFold(s, "true") || strings.EqualFold(s, "false")
 }
 
 // generatedChanged reports if the generated expression of a column was changed.
